@@ -9,6 +9,7 @@ from .build import AnalysisBroken
 
 DEFAULT_PROG = [None]     # set by the check driver: the Program of the current run
 NONE = ('none',)          # value of an empty std::optional
+NULLV = ('null',)         # nullptr
 
 
 class Evaluator:
@@ -122,6 +123,8 @@ class Evaluator:
             return self.ev(n['e'], state, depth + 1)
         if k == 'var' and n.get('name') in ('nullopt', 'std::nullopt') and n.get('vk') == 'global':
             return NONE
+        if k == 'null':
+            return NULLV
         if k == 'construct' and (n.get('cls') or '').startswith('std::optional'):
             real = [a for a in n.get('args', []) if fn.nodes[a]['k'] != 'defarg']
             if not real:
@@ -161,6 +164,11 @@ class Evaluator:
                 b = self.ev(r, state, depth + 1)
                 if a is None or b is None:
                     return None
+                # pointer compared with nullptr, the pointer being known only by its truth value
+                if b == NULLV and isinstance(a, bool):
+                    return (not a) if op == '==' else a
+                if a == NULLV and isinstance(b, bool):
+                    return (not b) if op == '==' else b
                 na, nb = self._num(a), self._num(b)
                 if na is not None and nb is not None:
                     return (na == nb) if op == '==' else (na != nb)
